@@ -439,3 +439,50 @@ def check_C02(sc, v, tier, seed, replay):
               "the transfer on/off, aggregate bit rates up to 4e12; every uplink message judged by Amf!AmfHandle in TLC, session reports "
               "(hook H2) and procedure counts judged at the end; distinct = (run, uplink message)")
     v.assumptions = ["AMF family A1-A4 of Amf.tla", "PDU session identity derived by the emulator lies in 1..15 for the chosen IMSIs"]
+
+
+def _fault_points(counts):
+    """downlink indices the emulator consumes, and those whose content it ignores (4th read of each registration)"""
+    reads = 1 + 4 * counts["reg"] + min(counts["reg"], counts["pdu"]) + min(counts["reg"], counts["pdu"], counts["svc"]) + 2 * min(counts["reg"], counts["dereg"])
+    ignored = {4 + 4 * i for i in range(counts["reg"])}
+    ndl = reads + min(counts["reg"], counts["pdu"], counts["rel"])
+    return reads, ignored, ndl
+
+
+def check_C19(sc, v, tier, seed, replay):
+    import random
+    import online
+    # design level: the abstract system specification with both fault kinds (FailStopSafe, Terminates)
+    _mc_stg(sc, v)
+    emu = online.prepare(sc)
+    rnd = random.Random(seed * 1019 + 19)
+    shapes = [(1, 1, 1, 1, 1)] if tier == "quick" else [(1, 1, 1, 1, 1), (2, 2, 1, 2, 2), (3, 2, 2, 1, 3)]
+    jobs = []
+    for si, s in enumerate(shapes):
+        counts = dict(zip(("reg", "pdu", "svc", "rel", "dereg"), s))
+        reads, ignored, ndl = _fault_points(counts)
+        pts = [("close", a) for a in range(ndl)] + [("garbage", a) for a in range(reads) if a not in ignored]
+        if tier == "quick":
+            pass
+        elif si > 0:
+            pts = rnd.sample(pts, min(len(pts), 24))
+        for kind, at in pts:
+            g = rnd.choice([[255] * 12, [rnd.randrange(256) for _ in range(rnd.choice([1, 5, 40]))] + [255, 255],
+                            [0, 21, 0, 50, 0, 0, 4, 0, 27], [0x20, 0x15, 0x00, 0x80]])
+            scn, text = online.make_scenario(random.Random(seed * 7 + si), counts,
+                                             fault={"kind": kind, "at": at, "bytes": g if kind == "garbage" else []})
+            jobs.append(("f%d-%s%02d" % (si, kind, at), scn, text))
+    runs = online.run_many(sc, emu, jobs, parallel=12, timeout=900)
+    for r in runs:
+        for rj in r["tlc"].rejects:
+            if rj["why"].startswith("HARNESS"):
+                raise HarnessError("fault run %s is inconclusive: %s" % (r["name"], rj["why"]))
+    _online_collect(v, runs, "C19")
+    v.samples = [{"fault": r["scn"]["fault"], "exit": r["verdict"]["result"].get("code"), "banner": r["verdict"]["result"].get("banner"),
+                  "messages_before_exit": r["verdict"]["k"]} for r in runs[:4]]
+    v.extra["fault_runs"] = len(runs)
+    v.rule = ("complete test-mode conversations of the real process; for every downlink message index: the peer closes the association "
+              "instead of sending it; for every downlink message whose content the emulator consumes: undecodable bytes instead "
+              "(all-0xFF, random, truncated PDUs; Per!PerDecode must reject them); TLC judges exit status, banner and session reports; "
+              "distinct = (run, uplink message)")
+    v.assumptions = ["AMF family A1-A4 of Amf.tla", "a run that does not exit within 30 s of the last event counts as a hang"]
